@@ -482,4 +482,15 @@ theorem Tree.root_data {o : Ops R G} (L : Lawful o) (t : Tree G) (i : TInv o t) 
   rw [i.wf.data_eq, total_eq_gsum L, fsum_all]
   intro _ _; rfl
 
+/-- `Insert`: invariant kept; the sum of the leaves on any set `q` of pages gains the reference exactly when the clock's
+    page is in `q` -/
+theorem insert_spec {o : Ops R G} (L : Lawful o) (t : Tree G) (i : TInv o t) (r : R) (clock : Nat) :
+    TInv o (t.insert o r clock) ∧ (t.insert o r clock).leafSize = t.leafSize ∧
+    ∀ q : Nat → Bool, fsum o t.leafSize q (t.insert o r clock).root.leaves =
+      if q (clock / t.leafSize) then o.ins (fsum o t.leafSize q t.root.leaves) r
+      else fsum o t.leafSize q t.root.leaves := by
+  have := updatePath_spec L t i clock (fun d => o.ins d r) (o.ins o.zero r) (fun d => L.ins_eq d r)
+  refine ⟨this.1, this.2.1, fun q => ?_⟩
+  rw [Tree.insert, this.2.2 q, ← L.ins_eq]
+
 end Nuts.C08
